@@ -1020,6 +1020,16 @@ class Unit:
             for w in self.rules[r]:
                 if r not in ("E2",) or "doc" not in w:
                     hdr.append("//    %s: %s" % (r, w))
+        # every unit: println!/eprintln! (std::io::_print/_eprint) are console output only; specified centrally so that an edit
+        # that adds a console line is decided on its merits instead of being UNDECIDED ("not supported")
+        if "print_internals" not in self.features:
+            self.features.append("print_internals")
+        std_print = ("\n// ---- console output (all units) ----\n"
+                     "pub assume_specification [std::io::_eprint] (_0: core::fmt::Arguments<'_>);\n"
+                     "pub assume_specification [std::io::_print] (_0: core::fmt::Arguments<'_>);\n")
+        if "std::io::_eprint]" in body:
+            std_print = ""
+        body = body + std_print
         feats = "".join("#![feature(%s)]\n" % f for f in self.features)
         prefix = "\n".join(hdr) + "\n" + feats + "#![allow(unused_imports, unused_variables, dead_code, unused_mut, non_snake_case, unused_assignments, unreachable_code, unused_parens, non_camel_case_types, non_upper_case_globals)]\n" + \
             "use vstd::prelude::*;\n" + header_extra
